@@ -329,7 +329,12 @@ def judge(case):
         return core.not_admitted("margin")
     if exp is None or exp[0] not in ("PGS", "PHS"):
         return core.not_admitted("result-not-a-body")
-    x, y = C.lift_pair(case)
+    try:
+        x, y = C.lift_pair(case)
+    except Exception as e:
+        # building a valid polygon / polyhedron (any vertex order, points with a past, faces in any orientation) failed
+        mu.fail("valid-operand-rejected:" + M.classify_exc(e), "constructing valid operands %s / %s raised %s: %s" % (C.show_short(a, 100), C.show_short(b, 100), type(e).__name__, e))
+        return mu.result()
     res, exc, _ = M.call(G.intersection, x, y)
     if exc is not None or res is None or M.kind(res) != C.kname(exp):
         return core.not_admitted("intersection-itself-off (C03's business)")
